@@ -693,7 +693,16 @@ class InterpBase:
         self.log_read("slice", base, lo, hi, env, node)
         return T("slice", base, lo, hi, ty="bytes")
 
+    def namedtuple_items(self, obj, env, node):
+        """field values of a NamedTuple instance in declaration order, or None"""
+        if obj.k == "obj" and isinstance(obj.ty, str) and obj.ty in self.P.classes and getattr(self.P.classes[obj.ty], "is_namedtuple", False):
+            return [self.getattr(obj, f_[0], env, node) for f_ in self.P.dataclass_fields(obj.ty)]
+        return None
+
     def do_index(self, base, i, env, node):
+        nt = self.namedtuple_items(base, env, node)
+        if nt is not None:
+            base = T("tuple", tuple(nt))
         if base.k in ("tuple", "list"):
             if i.k == "const" and isinstance(i.a[0], int):
                 try:
